@@ -22,6 +22,7 @@
 -/
 import Lattigo.Proofs.RLWE
 import Lattigo.Proofs.RLWENorm
+import Lattigo.Props.C03Ring
 import Mathlib.Data.ZMod.Basic
 
 namespace Lattigo.Props.C03
